@@ -25,4 +25,3 @@ func (i *interpreter) globalSpecial(g *ssa.Global) (value, bool) {
 	return nil, false
 }
 
-type mfs struct{}
